@@ -215,12 +215,6 @@ def _config(src, v, problems):
         problems.append('add_exception_view: default context / exception_only unrecognised')
     else:
         v['exc_default_context'], v['exc_exception_only'] = dflt, xo
-    mh = F.Module(src, 'pyramid/httpexceptions.py')
-    fn = mh.find('default_exceptionresponse_view')
-    ok = fn is not None and isinstance(fn.body[-1], ast.Return) and _name(fn.body[-1].value) == 'context'
-    if not ok:
-        problems.append('default_exceptionresponse_view no longer ends in "return context"')
-        v['default_view_returns_context'] = False
 
 
 ADD_VIEW_STATEMENTS = [
@@ -336,9 +330,34 @@ def _forwards(src, v, problems):
             v[key] = [p for p in DIRECTIVE_PREDS if p in got]
 
 
+def _c15_tie(src, v, problems):
+    """_find_views / Registry._clear_view_lookup_cache: tied through C15's translator (imported read-only): the lookup
+    must translate to the program C15's theorems are about (cache transparent; product of the two resolution orders x
+    the three view types), the clear must replace the dict"""
+    from harness.c15 import translate as T15
+    m = F.Module(src, 'pyramid/view.py')
+    fn = m.find('_find_views')
+    try:
+        prog, vt = T15.translate_lookup(fn)
+        if prog != T15.DEFAULT_LOOKUP or vt != ['IView', 'ISecuredView', 'IMultiView']:
+            problems.append('_find_views: translates (C15 translator) to another program: %s %s' % (T15.coq_prog(prog), vt))
+    except Exception as e:
+        problems.append('_find_views: C15 translator: %s' % e)
+    mr = F.Module(src, 'pyramid/registry.py')
+    fn = mr.find('Registry._clear_view_lookup_cache')
+    try:
+        if T15.clear_mode(fn, 'self') != 'Swap':
+            problems.append('_clear_view_lookup_cache no longer replaces the cache dict')
+    except Exception as e:
+        problems.append('_clear_view_lookup_cache: C15 translator: %s' % e)
+
+
 def extract(src, problems):
     v = dict(DEFAULTS)
-    for f in (_iev, _tweens, _config, _add_view, _permissive, _forwards):
+    # _iev, _tweens and the default-view check are superseded by harness/c14/translate.py (the functions are
+    # regenerated as gen_*; their constants stay at the property's values in code_params and are no longer used by
+    # the executed pipeline)
+    for f in (_config, _add_view, _permissive, _forwards, _c15_tie):
         try:
             f(src, v, problems)
         except Exception as e:          # fail closed
